@@ -255,7 +255,7 @@ void
 O_<TN_, TA_, TH_, TS_...>::deepForwardActive(Control& control,
 											 const Request request) noexcept
 {
-	HFSM2_ASSERT(control._core.registry.isActive(HEAD_ID));
+	HFSM2_ASSERT(control._core.registry.isActive(HEAD_ID) || !control._core.registry.isActive());
 
 	const ProngCBits requested = orthoRequested(static_cast<const Control&>(control));
 
